@@ -1129,6 +1129,9 @@ def replay(obj):
     kind = obj.get("kind")
     if kind == "subclass":
         return replay_subclass(obj)
+    if kind == "opts" and not obj.get("broken"):
+        from harness import c04opts
+        return c04opts.replay(obj)
     if obj.get("broken"):
         print("no concrete failing input was found; what no longer checks:", obj.get("broken"))
         print(obj.get("detail", ""))
@@ -1203,7 +1206,8 @@ def replay(obj):
 # ------------------------------------------------------------------ run
 def run(rep, tier):
     rnd = random.Random(core.seed() * 1000003 + 4)
-    proofs_ok, model_ok = core.standard_proof_obligations(rep, "C04", ["theories/Check/C04chk.vo"])
+    proofs_ok, model_ok = core.standard_proof_obligations(rep, "C04", ["theories/Check/C04chk.vo",
+                                                                       "theories/Check/C04optchk.vo"])
     rep.assumptions += [
         "default configuration: defensive_copy_on_get on, no trusted instantiation, no direct __dict__/object.__setattr__ access",
         "model: one field per class; containers hold two items; an in-place mutator is abstracted as an arbitrary "
@@ -1265,6 +1269,16 @@ def run(rep, tier):
     for key, what, replay_obj in sub_findings:
         rep.finding(key, what, dict(replay_obj, property="C04"))
     print("[C04] subclass stream %.1fs" % (_t.time() - _t0), file=sys.stderr)
+    _t0 = _t.time()
+    # instance-level operations over the class-option lattice (harness/c04opts.py)
+    from harness import c04opts
+    opt_findings, opt_probes = c04opts.run_stream(rep, rnd, tier)
+    for key, what, replay_obj in opt_findings:
+        rep.finding(key, what, replay_obj)
+    odist = rep.cov["streams"].get("inst-ops", {}).get("dist", {})
+    if not odist.get("outcome:raise") or not odist.get("options:eu1-ign0-apd") or not odist.get("options:eu1-ign1-apF"):
+        rep.broken("coverage:inst-ops", "class-option stream inconclusive: %r" % odist)
+    print("[C04] class-option stream %.1fs (%d setattr probes for Coq)" % (_t.time() - _t0, len(opt_probes)), file=sys.stderr)
     _t0 = _t.time()
     # ---------------------------------------------------------------- correspondence in Coq
     if model_ok:
@@ -1329,6 +1343,31 @@ def run(rep, tier):
             rep.broken("correspondence:no-subclass",
                        f"define_raises (model of _check_for_final_violations) and typedpy differ on {len(sub_mism)} class "
                        f"statements; first: bases {b[2]} raised={b[1]}", {"bases": b[2], "raised": b[1]})
+        # the class-option probes against the generated effect list of Structure.__setattr__
+        per = 400
+        ores = core.eval_cases(c04opts.coq_shards(opt_probes, per), "c04opt", c04opts.OPT_HEADER)
+        omism, declined, obad = [], 0, None
+        for si_, (rc, out, err) in enumerate(ores):
+            vals = core.parse_eval(out)
+            if rc != 0 or len(vals) != 2:
+                obad = (si_, (out + err)[-1500:])
+                continue
+            omism += [si_ * per + i for i in core.parse_nat_list(vals[0])]
+            declined += core.parse_nat_list(vals[1])[0]
+        rep.obligation("correspondence:setattr-options", not omism and obad is None and declined * 4 <= len(opt_probes),
+                       f"{len(opt_probes)} setattr probes over the class-option lattice, {len(omism)} mismatches, "
+                       f"{declined} outside the generated translation")
+        rep.count("setattr-options-correspondence", len(opt_probes), None)
+        if obad is not None:
+            rep.broken("correspondence:coq-eval-options", f"probe shard {obad[0]} failed to evaluate: {obad[1]}")
+        if omism:
+            spec, op, role, exn, changed, has = opt_probes[omism[0]]
+            rep.broken("correspondence:setattr-options",
+                       f"the generated effect list of Structure.__setattr__ (Gen/StructNoneFields.v) executed on the model "
+                       f"state and typedpy differ on {len(omism)} probes; first: {c04opts.describe(op)} "
+                       f"({role}, holds a value: {has}) on options {c04opts.opt_tag(spec)} context {spec['ctx']}: "
+                       f"observed {'raised ' + exn if exn else ('CHANGED' if changed else 'no change')}",
+                       c04opts.replay_obj(spec, "ctor", [op]))
     print("[C04] coq evaluation %.1fs" % (_t.time() - _t0), file=sys.stderr)
     if not proofs_ok:
         from harness.props.c17 import broken_build
